@@ -179,6 +179,8 @@ def gen_admissible(rng, tries=40, shear=False, history=True, **kw):
         except Exception:
             continue
         if admissible(q, msgs):
+            if history and cfg.get('order') == 'r3' and not shear and rng.random() < 0.5:
+                q.calculate_shear()          # a read-only diagnostic (C17): must not change anything the oracles look at
             if history and rng.random() < HISTORY_FRACTION:
                 try:
                     q2, msgs2 = via_history(cfg, rng)
